@@ -1,6 +1,8 @@
 import PvModel.Props.C14
+import PvModel.Props.C14Engine
 #print axioms Pv.Surface.C14_term_shape
 #print axioms Pv.Surface.C14_clause_shape
 #print axioms Pv.Surface.C14_query_order
 #print axioms Pv.Surface.C14_term
 #print axioms Pv.Surface.C14_clause
+#print axioms Pv.C14_end_to_end
